@@ -26,13 +26,17 @@ Tolerances / regime (calibration, R5):
    at 1e-12, 2e-5 at the default).  The statement's 1e-8 relative is therefore decided on inputs that ask the solver for
    KNOBS -convergence_tolerance 1e-13 (the tightest value at which nearly every lattice point still converges; at 1e-14
    a quarter of the points fail on "Mass of oxygen has not converged"), which makes it decidable for
-   |sigma| >= 1e-5 C/m2 (|charge| >= 1e-5 eq for (4)).  Below that (a surface within a few microvolts of its point of
-   zero charge: 10..150 of the >1e5 evaluations, counted in `undecidable_n`) the statement's tolerance is not decidable
+   |sigma| >= 1e-5 C/m2.  Below that (a surface within a few microvolts of its point of
+   zero charge; counted in `undecidable_n`) the statement's tolerance is not decidable
    and is not claimed; there the check alarms only if the deviation exceeds the convergence tolerance the input asked
    for - which implies a violation of the statement's tolerance too, so no alarm is ever raised where the statement holds.
    A small lattice at the default tolerance (1e-8) is run too; its worst relative residuals and the number of points
    beyond 1e-8 relative are *reported* in the evidence (`default_tolerance_*`), not judged.
- * The statement gives no tolerance for (4); 1e-8 relative to the surface charge is used, as for (3).
+ * The statement gives no tolerance for (4).  It is a balance of many signed terms and is judged relative to its gross
+   size: |sum| <= 1e-8 * (sum |z n| over the surface species + sum |z n| over the diffuse-layer ions), with the same
+   convergence-tolerance rule.  (Relative to the *net* charge it is not decidable on most of the lattice: net charges
+   are 1e-7..1e-5 eq, the engine's criterion is 1e-13 eq absolute, and with the Borkovec-Westall integration the
+   balance additionally carries the g-iteration error of about convergence_tolerance x moles of dissolved ions.)
  * (1) and (2) carry no tolerance in the statement either; 1e-8 relative is used and holds with a margin of 1e4.
  * A cancellation allowance of 64 ulp of the summed magnitudes is added where a value is a sum of signed terms.
  * not judged (R2): runs with rc != 0 / ERROR (zero-charge start with -donnan -only_counter_ions, kinetic integration
@@ -460,19 +464,19 @@ def judge(case, lay, o, tag, problems, diags, stats):
                 qabs += abs(z * m)
             stot = sum(ch)
             e = abs(q + stot)
-            net = max(abs(q), abs(stot))
-            r = e / max(net, 1e-300)
-            sl = ULP * (qabs + chabs)
+            gross = qabs + chabs
+            r = e / max(gross, 1e-300)
+            sl = ULP * gross
             stats["dl-balance"] = max(stats.get("dl-balance", 0.0), r if e > sl + floor else 0.0)
             stats["dl-balance_n"] = stats.get("dl-balance_n", 0) + 1
             if len(dl["species"]) < 3:
                 raise RuntimeError("EDL_SPECIES returned %d species for an explicit diffuse layer" % len(dl["species"]))
-            if TOL * net < floor:
+            if TOL * gross < floor:
                 stats["undecidable_n"] = stats.get("undecidable_n", 0) + 1
-            if not (e <= max(TOL * net, floor) + sl):
+            if not (e <= max(TOL * gross, floor) + sl):
                 problems.append(("diffuse-layer-balance model=%s" % case["model"],
-                                 "%s: surface %s: charge of surface species %.17g eq, net charge of the ions in the diffuse layer %.17g eq, sum %.3g eq (rel %.3g)" % (
-                                     tag, s, stot, q, q + stot, r)))
+                                 "%s: surface %s: charge of surface species %.17g eq, net charge of the ions in the diffuse layer %.17g eq, sum %.3g eq = %.3g of the gross charge %.3g eq" % (
+                                     tag, s, stot, q, q + stot, r, gross)))
         elif kind == "noedl":
             pass
 
